@@ -53,6 +53,10 @@ class CFG:
             for idx, e in enumerate(b.elems):
                 if isinstance(e, int):
                     self.pos.setdefault(e, (b.id, idx))
+        # jump statements are block terminators, not elements: give them the position at the end of their block
+        for b in self.blocks.values():
+            if b.term is not None and b.tk in ("ContinueStmt", "BreakStmt", "GotoStmt"):
+                self.pos.setdefault(b.term, (b.id, len(b.elems)))
         self.reach = self._reach(self.entry)
         self._dom = None
         self._pdom = None
